@@ -161,7 +161,7 @@ func enabled(i int) bool {
 		}
 		return !t.rw.writer && t.rw.readers == 0
 	case opRLock:
-		return !t.rw.writer
+		return !t.rw.writer && t.rw.waiting == 0
 	case opWait:
 		return t.wg.n == 0
 	case opOnce:
